@@ -94,7 +94,7 @@ def trim (pp : UParams F) (supported hidingB : Nat) (bounds : Option (List Nat))
       | none => .ok (⟨powers, none, gp, none, maxDegree⟩, ⟨kvk, none, maxDegree, supported⟩)
       | some [] => .ok (⟨powers, none, gp, some [], maxDegree⟩, ⟨kvk, none, maxDegree, supported⟩)
       | some (b :: bs) =>
-        let last := (b :: bs).getLast (by simp)
+        let last := (b :: bs).getLastD 0
         if last > maxDegree then .error .abort     -- usize underflow / slice out of range
         else
           let shifted := pp.powers.drop (maxDegree - last)
